@@ -70,6 +70,8 @@ def sequential_events(case):
 
 
 def oracle_ctl(case, out):
+    if out == "SKIPPED":
+        return None
     if not out.startswith("ok"):
         return out[:300]
     got = out.split()[1:]
@@ -95,10 +97,16 @@ def ctl_nontrivial(case):
     return nl > 2 * threads * b      # at least one batch object is recycled
 
 
-def run_lines_restart(exe, cases, timeout=600):
-    """run_lines, restarting the driver after a case that ended it (HANG -> exit 3)"""
+def run_lines_restart(exe, cases, timeout=600, max_restarts=5):
+    """run_lines, restarting the driver after a case that ended it (HANG -> exit 3); after max_restarts such cases the
+    remaining ones are skipped (a broken tree would otherwise cost one watchdog period per case)"""
     out, rest = [], list(cases)
+    restarts = 0
     while rest:
+        if restarts > max_restarts:
+            out += ["SKIPPED"] * len(rest)
+            break
+        restarts += 1
         rc, o, e = vlib.sh([exe], input=("\n".join(rest) + "\n").encode(), timeout=timeout)
         lines = o.split("\n")
         if lines and lines[-1] == "":
@@ -203,11 +211,15 @@ def tool_checks(ctx, stock, jitter, n_inputs):
     fails, runs, nontrivial = [], 0, 0
     dist = {}
     for idx in range(n_inputs):
+        if len(fails) >= 3:
+            break
         inp = gen_tool_input(rng, d, idx)
         modes = [["single"], ["union"], ["multiple"], ["single", "context"], ["union", "context"], ["multiple", "context"],
                  ["union", "phrase"], ["multiple", "phrase"], ["multiple", "phrase", "context"]]
         rng.shuffle(modes)
         for mode in modes[:ctx.pick(3, 9)]:
+            if len(fails) >= 3:
+                break
             multi = mode[0] == "multiple"
             nout = inp["nsent"] if multi else 1
             vocab = inp["pvocab"] if "phrase" in mode else inp["vocab"]
@@ -239,7 +251,7 @@ def tool_checks(ctx, stock, jitter, n_inputs):
                     if f.startswith("thr%d." % idx):
                         os.remove(os.path.join(d, f))
                 cmd = "exec %s %s threads:%d batch_size:%d model:%s %s < %s" % (exe, " ".join(base_args), k, b, inp["model"], thr_prefix, vocab)
-                limit = max(10.0, 50 * t1)
+                limit = max(8.0, 50 * t1)
                 e = dict(os.environ)
                 if env:
                     e.update(env)
@@ -310,7 +322,7 @@ def run(ctx):
         model = vlib.ocaml_model("C12")
         mout = vlib.run_lines(model, cases)
         for c, a, b in zip(cases, iout, mout):
-            if a != b:
+            if a != b and a != "SKIPPED":
                 mismatches.append((c, a, b))
     except vlib.ModelBroken as e:
         model_broken = str(e)
